@@ -1,7 +1,7 @@
 (* KernelCheck.v — all kernel ties in one statement *)
 From Coq Require Import ZArith List Bool String.
 Import ListNotations.
-From OSQ Require Import Num IR Construct DefaultTable Matrix Check ABA Merge McKay CNOTDec Constants ConstCheck Kernels KernelTactics KC_aba_angles_ok KC_aba_gates_ok KC_compose_ok KC_can1_ok KC_is_identity_ok KC_bsr_eq_ok KC_mckay_decompose_ok KC_cnot_decompose_ok.
+From OSQ Require Import Num IR Construct DefaultTable Matrix Check ABA Merge McKay CNOTDec Constants Kernels KernelTactics KC_aba_angles_ok KC_aba_gates_ok KC_compose_ok KC_can1_ok KC_is_identity_ok KC_bsr_eq_ok KC_mckay_decompose_ok KC_cnot_decompose_ok.
 
 Definition source_kernels_checked : Prop :=
   (forall (T : Type) (N : Num T) ia ib alpha ax, gen_aba_angles N ia ib alpha ax = aba_angles N ia ib alpha ax) /\
